@@ -44,8 +44,8 @@ ExtractOne(n, s, nsw, ch) ==
        IF rows[j] = -1 \/ ch[c] = -1 THEN ZERO ELSE Cell(rows[j], ch[c])]]
 \* per-spike channel lists: a fixed rotation of patterns (with and without -1)
 \* (consecutive spikes whose stored rows START with the same channel and differ afterwards, rows padded with -1)
-ChanPatterns == << <<0, 1>>, <<0, 2>>, <<2, -1>>, <<0, -1>>, <<1, 0>> >>
-ChansOf(i) == ChanPatterns[((i - 1) % 5) + 1]
+ChanPatterns == << <<0, 1>>, <<0, 2>>, <<2, -1>>, <<0, -1>>, <<1, 0>>, <<-1, 1>> >>   \* (-1 also BEFORE a real channel)
+ChansOf(i) == ChanPatterns[((i - 1) % 6) + 1]
 
 \* get_spike_waveforms: store = <<ids, chans, waves>> (parallel sequences), query = sequence of
 \* stored spike indices, cids = requested channels (distinct, no -1)
